@@ -731,7 +731,58 @@ func (f *sigsFam) Gen(r *hx.Run) {
 			prev = se
 			toks = append(toks, se.token())
 		}
+		// the same unsigned transaction (same nonce, hence same hash) with other signature entries, validated in the same
+		// process before and after the original: a verdict must depend on the entries presented, not on history
+		variants := func() {
+			for v := 0; v < 1+r.Rng.Intn(3); v++ {
+				var vt []string
+				switch r.Rng.Intn(6) {
+				case 0: // no entries at all
+				case 1: // the first entry with its signatures removed
+					if len(toks) > 0 {
+						e, _ := parseEntry(toks[0])
+						e.sigs = nil
+						e.wf, e.v = "-", "-"
+						vt = []string{e.token()}
+					}
+				case 2: // fewer signatures than m
+					if len(toks) > 0 {
+						e, _ := parseEntry(toks[0])
+						if len(e.sigs) > 0 {
+							e.sigs = e.sigs[:len(e.sigs)-1]
+							pks := []keypair.PublicKey{}
+							for _, b := range e.pks {
+								pk, _ := keypair.DeserializePublicKey(b)
+								pks = append(pks, pk)
+							}
+							_, e.wf, e.v, _ = verdicts(pks, e.m, e.sigs, h[:])
+						}
+						vt = []string{e.token()}
+					}
+				case 3: // entries signed by other keys / corrupted
+					es := genEntry(r, pool[:20], h[:], other, false)
+					vt = []string{es.build(h[:]).token()}
+				case 4: // a foreign single signer
+					k := pool[r.Rng.Intn(len(pool))]
+					es := &entrySpec{keys: []*sigKey{k}, m: 1, sigs: [][]byte{pool[r.Rng.Intn(len(pool))].sign(other)}}
+					vt = []string{es.build(h[:]).token()}
+				default: // a valid entry of another signer
+					es := genEntry(r, pool[:20], h[:], other, true)
+					vt = []string{es.build(h[:]).token()}
+				}
+				vres := r.Do(strings.TrimSpace(fmt.Sprintf("tx %d %s", nonce, strings.Join(vt, " "))))
+				r.Hist("tx.same-body-other-sigs." + strings.Fields(vres)[0])
+			}
+		}
+		twoStep := ne >= 1 && ne <= 6 && r.Rng.Chance(1, 3)
+		if twoStep && r.Rng.Bool() {
+			variants()
+		}
 		res := r.Do(strings.TrimSpace(fmt.Sprintf("tx %d %s", nonce, strings.Join(toks, " "))))
+		if twoStep {
+			variants()
+			r.Do(strings.TrimSpace(fmt.Sprintf("tx %d %s", nonce, strings.Join(toks, " "))))
+		}
 		sort.Strings(kinds)
 		r.Nontrivial(strings.Join(kinds, "+") + "/" + strings.Fields(res)[0])
 		for _, k := range kinds {
